@@ -366,6 +366,49 @@ MEM_STATIC size_t ZSTD_initLegacyStream(void** legacyContext, U32 prevVersion, U
 
 
 
+/* ZSTD_getLegacyWindowSize() :
+ * size of the window that the streaming decoder of a legacy frame sizes its buffers with
+ * (formats v0.5 and later; 0 for older ones, whose streaming decoders do not allocate from the frame header).
+ * @return : 0 when *windowSizePtr is set,
+ *           or the nb of header bytes needed to know, when srcSize is too small,
+ *           or an error code (invalid frame header) */
+MEM_STATIC size_t ZSTD_getLegacyWindowSize(U32 version, const void* src, size_t srcSize,
+                                           unsigned long long* windowSizePtr)
+{
+    *windowSizePtr = 0;
+    switch(version)
+    {
+#if (ZSTD_LEGACY_SUPPORT <= 5)
+        case 5 :
+            {   ZSTDv05_parameters params;
+                size_t const r = ZSTDv05_getFrameParams(&params, src, srcSize);
+                if (r == 0) *windowSizePtr = 1ULL << params.windowLog;
+                return r;
+            }
+#endif
+#if (ZSTD_LEGACY_SUPPORT <= 6)
+        case 6 :
+            {   ZSTDv06_frameParams fParams;
+                size_t const r = ZSTDv06_getFrameParams(&fParams, src, srcSize);
+                if (r == 0) *windowSizePtr = 1ULL << fParams.windowLog;
+                return r;
+            }
+#endif
+#if (ZSTD_LEGACY_SUPPORT <= 7)
+        case 7 :
+            {   ZSTDv07_frameParams fParams;
+                size_t const r = ZSTDv07_getFrameParams(&fParams, src, srcSize);
+                if (r == 0) *windowSizePtr = fParams.windowSize;
+                return r;
+            }
+#endif
+        default :
+            (void)src; (void)srcSize;
+            return 0;
+    }
+}
+
+
 MEM_STATIC size_t ZSTD_decompressLegacyStream(void* legacyContext, U32 version,
                                               ZSTD_outBuffer* output, ZSTD_inBuffer* input)
 {
